@@ -128,7 +128,7 @@ reg = {
         "cow": {"overlay": "units/cow.ovl", "canaries": ["canary_cow"],
                 "helpers": ["drop", "get_page_number", "new", "child_page", "child_checksum", "count_children", "write_child_page", "memory_mut",
                             "uncommitted", "get_page_mut", "push_all", "replace_child", "build", "to_single_child", "required_bytes", "into_parts",
-                            "conditional_free", "get_page_size", "push_all_except_deleted"]},
+                            "conditional_free", "get_page_size", "push_all_except_deleted", "min_usize", "key", "push_child", "push_key"]},
         # the root update after a deletion, and MutateHelper::delete_key
         "rootupd": {"overlay": "units/rootupd.ovl", "canaries": ["canary_rootupd"],
                     "helpers": ["get_page_number", "get_page", "new", "num_pairs", "build", "push_child", "push_key", "push_all_except_deleted", "delete_helper"]},
@@ -261,13 +261,13 @@ P["C12"] = {
 P["C10"] = {
     "level": "proof",
     "verus": [{"unit": "merkle", "functions": ["RawBtree::verify_checksum", "RawBtree::verify_checksum_helper"]},
-              {"unit": "cow", "functions": ["MutateHelper::replace_branch_child", "MutateHelper::finalize_branch_builder", "MutateHelper::apply_subtree_result", "MutateHelper::rebuild_partial_leaf_child"]},
+              {"unit": "cow", "functions": ["MutateHelper::replace_branch_child", "MutateHelper::finalize_branch_builder", "MutateHelper::apply_subtree_result", "MutateHelper::rebuild_partial_leaf_child", "MutateHelper::merge_grandchild"]},
               {"unit": "search", "functions": ["BranchAccessor::child_for_key", "LeafAccessor::position"]},
               {"unit": "rootupd", "functions": ["MutateHelper::finish_deletion", "MutateHelper::delete_key"]}],
     "kani": [K["C10-F1"], K["C10-F2"], K["C10-F3"], K["C10-F4"], K["C10-F6a"], alias("C11-R3", "C10-F6b"), alias("C06-K2", "C10-F6c"),
              alias("C07-K1s", "C10-F6d"), alias("C04-L1f", "C10-P1f"), alias("C04-L1v", "C10-P1v")],
     "assumptions": ["K1 (cow unit): a branch page is the sequence of its (child page, checksum) pointers; BranchBuilder::build allocates a fresh page of this transaction holding exactly the pointers pushed (built_children, a function of the page number); get_page_mut records what is written through the handle against the page; the separator keys are not modelled"],
-    "explanation": "(V) checksum discipline of the mutator, verified on the REAL MutateHelper::replace_branch_child and finalize_branch_builder: a redirected child pointer always carries the DEFERRED checksum (recomputed at commit) - in place only on a page this transaction allocated, otherwise in a copy that differs from the original in exactly that pointer; a branch reduced to one child hands that child up WITH the checksum it carried, an under-full branch is handed up unbuilt with children, checksums and keys untouched. Kernel = format conformance: every fixed-size encoder (page number, tree header, commit slot, database header, freed-page key, allocator-state key, savepoint record, page list) writes exactly the byte layout of docs/design.md (offsets are literals transcribed from the document, not the code's constants) - complete, loop-free; leaf pages: offsets tables, entries and the checksummed prefix - bounded.",
+    "explanation": "(V) checksum discipline of the mutator, verified on the REAL MutateHelper::replace_branch_child and finalize_branch_builder: a redirected child pointer always carries the DEFERRED checksum (recomputed at commit) - in place only on a page this transaction allocated, otherwise in a copy that differs from the original in exactly that pointer; a branch reduced to one child hands that child up WITH the checksum it carried, and when that child is merged into the sibling branch (fragment of apply_child_deletion_result) it is carried over with that same checksum on the correct side; an under-full branch is handed up unbuilt with children, checksums and keys untouched. Kernel = format conformance: every fixed-size encoder (page number, tree header, commit slot, database header, freed-page key, allocator-state key, savepoint record, page list) writes exactly the byte layout of docs/design.md (offsets are literals transcribed from the document, not the code's constants) - complete, loop-free; leaf pages: offsets tables, entries and the checksummed prefix - bounded.",
     "not_decided": "strictly increasing keys, separator bounds, equal depth, stored counts, no page referenced twice (invariants of btree_mutator.rs over histories); branch pages (probed: too expensive for CBMC); XXH3-128 being XXH3-128",
     "assumptions": ["docs/design.md lists '40 bytes: padding' before the transaction id of a commit slot; the fields then sum to 136 bytes, not 128. The oracle uses 32 bytes of padding (transaction id at 104, checksum at 112), the only reading consistent with the stated slot size; the document, not the code, is off by 8."],
 }
